@@ -19,8 +19,8 @@ THEOREMS = [
     "key_injective_counterexample_complex_nan", "key_injective_counterexample_float_array_nan",
     "key_injective_counterexample_iface_type_string", "not_key_injective",
     "idKey_injective", "keyFor_state_mono",
-    "map_refines_generic", "map_refines", "map_refines_nil",
-    "range_visits_increasing", "range_visit_live", "range_readonly", "range_spec",
+    "map_refines", "map_refines_from", "map_refines_nil", "map_refines_counterexample",
+    "range_visits_increasing", "range_visits_nodup", "range_skips_deleted", "range_visit_live", "range_spec", "range_readonly",
 ]
 
 INT_KINDS = {
@@ -345,6 +345,21 @@ def gen_pair_ops(rng, tier):
     pair(("E",), ("e", f_tid[0], ("f", "fh10")), ("e", t_int[0], ("i", 5)))
     pair(("E",), ("e", s_tid[0], ("s", b"nil")), ("n",))
     pair(("E",), ("n",), ("n",))
+    # separators matter: digit strings that shift across a dropped `$`
+    tid_of = {w.defs[tid][0]: tid for tid in w.clean_tids}
+    pair(("E",), ("e", tid_of["int"], ("i", 85)), ("e", tid_of["int8"], ("i", 5)))
+    pair(("E",), ("e", tid_of["int"], ("i", 325)), ("e", tid_of["int32"], ("i", 5)))
+    pair(("E",), ("e", tid_of["main.MyInt"], ("i", 5)), ("e", tid_of["main.MyStr"], ("s", b"5")))
+    pair(("L",), ("l", 1, 23), ("l", 12, 3))
+    pair(("U",), ("l", 1, 23), ("l", 12, 3))
+    pair(("L",), ("l", -1, 1), ("l", 0, 11))
+    pair(("C", 128), ("c", "fh2", "fh46"), ("c", "fh24", "fh6"))
+    pair(("C", 64), ("c", "fh2", "fh46"), ("c", "fh24", "fh6"))
+    pair(("A", 2, ("I", "int")), ("a", [("i", 1), ("i", 23)]), ("a", [("i", 12), ("i", 3)]))
+    pair(("T", [("I", "int"), ("I", "int")]), ("t", [("i", 1), ("i", 23)]), ("t", [("i", 12), ("i", 3)]))
+    pair(("A", 2, ("B",)), ("a", [("b", True), ("b", False)]), ("a", [("b", True), ("b", False)]))
+    pair(("T", [("S",), ("I", "int")]), ("t", [("s", b"1"), ("i", 23)]), ("t", [("s", b"1$2"), ("i", 3)]))
+    pair(("T", [("F", 64), ("F", 64)]), ("t", [("f", "fn"), ("f", "fh2")]), ("t", [("f", "fn"), ("f", "fh2")]))
     pair(("F", 64), ("f", "fz+"), ("f", "fz-"))
     pair(("F", 64), ("f", "fn"), ("f", "fn"))
     pair(("T", [("F", 64)]), ("t", [("f", "fn")]), ("t", [("f", "fn")]))
@@ -671,6 +686,10 @@ def gen_case(rng, pw, n, feat, tier):
         t = gen_type(rng, w, 3, None)
     named_key = rng.random() < 0.2 and t[0] != "N"
     if named_key:
+        if feat is None and t[0] == "P" and w.under(t[1])[0] != "T":
+            # `NK(p)` allocates a new pointer object on every conversion (recorded finding): the model gives every
+            # universe slot its own object
+            feat = "named-pointer-conversion"
         t = ("N", pw.define("NK%d" % n, t))
     # universe: values plus near-collisions and ==-duplicates
     univ = []
@@ -756,7 +775,9 @@ def case_ops(pw, case):
     ops = ["gomap begin"]
     for tid, (s, named, under) in sorted(pw.w.defs.items()):
         ops.append("gomap reg %d %s" % (tid, s.encode().hex()))
-    for v in case["univ"]:
+    for i, v in enumerate(case["univ"]):
+        if case["feat"] == "named-pointer-conversion" and v[0] == "r" and not v[2]:
+            v = ("r", 100000 + i, False)      # a fresh object per evaluated conversion
         ops.append("gomap key %s" % vtok(v))
     nsetup = len(ops)
     for st in case["steps"]:
@@ -846,9 +867,15 @@ def run_programs(chk, tier):
         elif p % 4 == 1:
             feats[rng.randrange(ncases)] = rng.choice(["complex-nan", "floatarray-nan", "iface-typestring"])
         progs_.append(gen_program(rng, "c15p%d" % p, ncases, tier, feats))
-    jobs = [{"id": g["id"], "files": {"main.go": g["src"]}, "variants": ["plain", "minify"] if i % 3 == 0 else ["plain"], "native": True}
+    jobs = [{"id": g["id"], "files": {"main.go": g["src"]}, "variants": ["plain", "minify"] if i % 3 == 0 else ["plain"], "native": True,
+             "timeout": 300}
             for i, g in enumerate(progs_)]
     results = progs.run_jobs(jobs)
+    # a loaded machine can push a run over its time limit: re-run such programs alone before believing a timeout
+    for i, res in enumerate(results):
+        if any(r.get("class") == "timeout" for r in res["runs"].values()):
+            chk.notes.append("program %s timed out; re-run alone" % jobs[i]["id"])
+            results[i] = progs.run_jobs([dict(jobs[i], timeout=900)], par=1)[0]
     # model
     all_ops, spans = [], []
     for g in progs_:
